@@ -189,7 +189,8 @@ def sumSimplify (e : Expr) (ranges : List Var) : Expr :=
     let dict := childDict children
     let keys := dict.map (·.1)
     let rs := ranges.map (·.name)
-    if seteq' rs keys then .one
+    if dict.length != children.length then .sum e ranges   -- a name with several children: left alone (`fix:` of Sum.simplify)
+    else if seteq' rs keys then .one
     else if subset' keys rs then                -- `Sum.safe(One(), ranges - children)` (after `fix:` ed0f7b2)
       .sum .one (ranges.filter (fun r => r.name ∉ keys))
     else if subset' rs keys then
